@@ -153,7 +153,14 @@ Definition denote_cmd (top : str) (c : cmd) : action :=
     (match c_kind c with KEnvUnset => [dir_env_name top] | _ => c_args c end)
     extra.
 
-Definition pr_arg (q : bool) (a : str) : str := if q then c_dq :: a ++ [c_dq] else a.
+(* a double quote that belongs to a value is written backslash, quote (the manual on
+   addAlias: do not forget to escape the quotes); every other character is written as
+   it is.  A value without double quote is printed unchanged. *)
+Definition esc_dq (a : str) : str :=
+  flat_map (fun c => if ascii_eqb c c_dq then [c_bsl; c_dq] else [c]) a.
+
+Definition pr_arg (q : bool) (a : str) : str :=
+  if q then c_dq :: esc_dq a ++ [c_dq] else esc_dq a.
 
 Fixpoint pr_rest (l : list (str * bool)) (args : list str) : str :=
   match l, args with
@@ -164,7 +171,7 @@ Fixpoint pr_rest (l : list (str * bool)) (args : list str) : str :=
 Definition print_args (g : arglay) (args : list str) : str :=
   match args with
   | [] => sp (gl_lead g)
-  | a0 :: rest => sp (gl_lead g) ++ a0 ++ pr_rest (gl_rest g) rest ++ sp (gl_trail g)
+  | a0 :: rest => sp (gl_lead g) ++ esc_dq a0 ++ pr_rest (gl_rest g) rest ++ sp (gl_trail g)
   end.
 
 (* the line as it is after _rewrite has removed the indentation and the comment *)
@@ -177,8 +184,12 @@ Definition cmd_line (c : cmd) : str := cl_indent (c_lay c) ++ cmd_core c ++ cl_a
 
 (* ---- alphabets *)
 
+(* characters no value may contain: the hash (a comment starts there), the backslash (it is
+   the escape character: a value ending in one would swallow the closing quote), line ends,
+   the three control characters _read uses as place holders.  The double quote IS a
+   character of values (written backslash, quote). *)
 Definition bad_arg_char (c : ascii) : bool :=
-  ascii_eqb c c_dq || ascii_eqb c c_hash || ascii_eqb c c_bsl || ascii_eqb c c_nl
+  ascii_eqb c c_hash || ascii_eqb c c_bsl || ascii_eqb c c_nl
   || ascii_eqb c (chr 13) || ascii_eqb c c_01 || ascii_eqb c c_02 || ascii_eqb c c_03.
 (* a value: non-empty, none of the characters above *)
 Definition wf_value (a : str) : bool := nonempty a && forallb (fun c => negb (bad_arg_char c)) a.
@@ -207,6 +218,77 @@ Definition wf_args (g : arglay) (args : list str) : bool :=
   match args with
   | [] => match gl_rest g with [] => true | _ => false end
   | a0 :: rest => wf_value a0 && bare_ok a0 && wf_rest (gl_rest g) rest
+  end.
+
+(* ---- is a text inside the argument grammar?  A recogniser that certifies its own answer:
+   args_parse cuts the text into leading blanks, values with their separators and quoting,
+   trailing blanks (one left-to-right pass; backslash-quote inside a value is a quote, any
+   other use of a backslash, a quote inside a bare word, text glued to a closing quote, a
+   quoted first value stop it); args_class answers Some args only when the layout and values
+   found are well formed AND print back to the very text.  None = outside the grammar:
+   nothing is claimed about the text. *)
+Inductive amode :=
+| AMLead (n : nat)
+| AMBare (sep cur : str) (bs : bool)
+| AMQuoted (sep cur : str) (bs : bool)
+| AMSep (sep : str).
+
+Definition aentry := (str * bool * str)%type.
+
+Definition astep (m : amode) (acc : list aentry) (c : ascii) : option (amode * list aentry) :=
+  match m with
+  | AMLead n =>
+      if ascii_eqb c c_sp then Some (AMLead (S n), acc)
+      else if ascii_eqb c c_dq || ascii_eqb c c_comma then None
+      else if ascii_eqb c c_bsl then Some (AMBare [] [] true, acc)
+      else Some (AMBare [] [c] false, acc)
+  | AMBare sep cur bs =>
+      if bs then (if ascii_eqb c c_dq then Some (AMBare sep (c :: cur) false, acc) else None)
+      else if ascii_eqb c c_bsl then Some (AMBare sep cur true, acc)
+      else if is_argsep c then Some (AMSep [c], (sep, false, rev cur) :: acc)
+      else if ascii_eqb c c_dq then None
+      else Some (AMBare sep (c :: cur) false, acc)
+  | AMQuoted sep cur bs =>
+      if bs then (if ascii_eqb c c_dq then Some (AMQuoted sep (c :: cur) false, acc) else None)
+      else if ascii_eqb c c_bsl then Some (AMQuoted sep cur true, acc)
+      else if ascii_eqb c c_dq then Some (AMSep [], (sep, true, rev cur) :: acc)
+      else Some (AMQuoted sep (c :: cur) false, acc)
+  | AMSep sep =>
+      if is_argsep c then Some (AMSep (c :: sep), acc)
+      else match sep with
+           | [] => None
+           | _ =>
+               if ascii_eqb c c_dq then Some (AMQuoted (rev sep) [] false, acc)
+               else if ascii_eqb c c_bsl then Some (AMBare (rev sep) [] true, acc)
+               else Some (AMBare (rev sep) [c] false, acc)
+           end
+  end.
+
+Fixpoint aparse (m : amode) (acc : list aentry) (t : str) : option (list aentry * nat) :=
+  match t with
+  | [] =>
+      match m with
+      | AMLead _ => Some ([], 0)
+      | AMBare sep cur false => Some (rev ((sep, false, rev cur) :: acc), 0)
+      | AMSep sep => Some (rev acc, length sep)
+      | _ => None
+      end
+  | c :: r => match astep m acc c with Some (m', acc') => aparse m' acc' r | None => None end
+  end.
+
+Definition args_parse (t : str) : option (arglay * list str) :=
+  match aparse (AMLead 0) [] t with
+  | Some (es, trail) =>
+      Some (mkArglay (length (fst (span (fun c => ascii_eqb c c_sp) t)))
+                     (map (fun e : aentry => (fst (fst e), snd (fst e))) (tl es)) trail,
+            map (fun e : aentry => snd e) es)
+  | None => None
+  end.
+
+Definition args_class (t : str) : option (list str) :=
+  match args_parse t with
+  | Some (g, args) => if wf_args g args && str_eqb (print_args g args) t then Some args else None
+  | None => None
   end.
 
 Definition arity_ok (k : ckind) (args : list str) : bool :=
